@@ -19,6 +19,7 @@ func init() {
 			runC05b(c) // concurrent workload, late joiners, kills; baseline at the end
 			return
 		}
+		c.DisarmDrops() // exact comparison with the model: no injected losses
 		runSeq(c, seqC05)
 	}, Config: seqOrLinConfig, Drops: true})
 	Register(&PropDef{ID: "C05b", Run: runC05b, Drops: true})
